@@ -156,5 +156,57 @@ func TestC23(t *testing.T) {
 		}
 		emit(ops, src, false)
 	}
+	concurrent(t, e, rd)
 	r.Finish("one operation history (20-60 Store calls over 2 pods, 3 nodes, 4 workloads, 2 apps x 2 entrypoints; duplicates and missing entities frequent) run on the real etcd store (embedded cluster) and the real Redis store (miniredis); 4 of 5 random histories avoid the operation instances on which Redis is known to diverge, 1 of 5 does not; non-trivial = a create failed or at least 3 calls failed")
+}
+
+// concurrent: one Store call with another complete Store call injected at the
+// outer call's first transaction (etcd: Txn, redis: MULTI) -- between the two
+// phases of the methods that are not atomic (etcd BatchCreateAndDecr, redis
+// BatchUpdate), before the call for atomic methods.
+func concurrent(t *testing.T, e, rd *sh.Backend) {
+	r := vh.New(t, "C23", "concurrent")
+	r.Coq("From Verif Require Import Store.KVPrims Store.Ops Store.Case Store.Concurrent.", "Concurrent.ccase", "Concurrent.cagree", "Concurrent.cok")
+	r.Extra("Local Open Scope string_scope.")
+	pr := &sh.Proc{App: "a0", Entry: "e0", Node: "n0", Ident: "i0"}
+	base := []sh.Op{{Kind: "AddPod", P: "p0", D: "d"}, {Kind: "AddNode", Nodes: []sh.NodeArg{node("n0", "p0", nil, "")}},
+		{Kind: "CreateProcessing", Pr: pr, Cnt: 3}, {Kind: "AddWorkload", W: wl("w0", "a0_e0_s", "n0")}, {Kind: "AddWorkload", W: wl("w2", "a0_e0_s", "n0")}}
+	w0y := &sh.WData{ID: "w0", Name: "a0_e0_s", Node: "n0", Labels: sh.Labels{"l": "y"}}
+	type scen struct {
+		name, coq    string
+		outer, inner sh.Op
+	}
+	scens := []scen{
+		{"add-add", "ScAddAdd " + sh.CoqW(*wl("w1", "a0_e0_s", "n0")) + " " + sh.CoqW(*wl("w10", "a0_e0_s", "n0")) + " " + sh.CoqProc(*pr),
+			sh.Op{Kind: "AddWorkload", W: wl("w1", "a0_e0_s", "n0"), Pr: pr}, sh.Op{Kind: "AddWorkload", W: wl("w10", "a0_e0_s", "n0"), Pr: pr}},
+		{"add-delproc", "ScAddDelProc " + sh.CoqW(*wl("w1", "a0_e0_s", "n0")) + " " + sh.CoqProc(*pr),
+			sh.Op{Kind: "AddWorkload", W: wl("w1", "a0_e0_s", "n0"), Pr: pr}, sh.Op{Kind: "DeleteProcessing", Pr: pr}},
+		{"upd-remove-same", "ScUpdRemove " + sh.CoqW(*w0y) + " " + sh.CoqW(*wl("w0", "a0_e0_s", "n0")),
+			sh.Op{Kind: "UpdateWorkload", W: w0y}, sh.Op{Kind: "RemoveWorkload", W: wl("w0", "a0_e0_s", "n0")}},
+		{"upd-remove-other", "ScUpdRemove " + sh.CoqW(*w0y) + " " + sh.CoqW(*wl("w2", "a0_e0_s", "n0")),
+			sh.Op{Kind: "UpdateWorkload", W: w0y}, sh.Op{Kind: "RemoveWorkload", W: wl("w2", "a0_e0_s", "n0")}},
+	}
+	for _, b := range []*sh.Backend{e, rd} {
+		for _, sc := range scens {
+			b.Reset()
+			for _, o := range base {
+				b.Exec(o)
+			}
+			ro, ri, ran := b.ExecInjected(sc.outer, sc.inner)
+			if !ran {
+				r.Count("not-injected=" + b.Name + "/" + sc.name)
+				continue
+			}
+			setup := make([]string, len(base))
+			for i, o := range base {
+				setup[i] = sh.CoqOp(o)
+			}
+			term := fmt.Sprintf("(mkCC %s %s (%s) %s %s %s)", vh.Bool(b.Name == "etcd"), sh.L(setup), sc.coq, ro.Term(), ri.Term(), sh.CoqDump(b.Dump()))
+			r.Count("outer=" + b.Name + "/" + sc.name + ":" + ro.Err)
+			desc := map[string]any{"backend": b.Name, "scenario": sc.name, "setup": base, "outer": sc.outer, "inner_injected_at_first_txn": sc.inner,
+				"outer_result": ro, "inner_result": ri}
+			r.Add(term, desc, map[string]any{"conc": b.Name + "/" + sc.name}, true)
+		}
+	}
+	r.Finish("one Store call with a second complete Store call injected at its first transaction (etcd Txn / redis MULTI), on both real stores: AddWorkload+processing with a concurrent AddWorkload on the same counter, with a concurrent DeleteProcessing, UpdateWorkload with a concurrent RemoveWorkload of the same / another workload; checked against the interleaving model and for linearizability against the specification")
 }
